@@ -139,6 +139,10 @@ pub fn dispatch(cx: &RunCtx) -> bool {
         "C09" => crate::tchecks::c09(cx),
         "C10" => crate::fchecks::c10(cx),
         "C11" => crate::fchecks::c11(cx),
+        "C12" => crate::mchecks::c12(cx),
+        "C13" => crate::mchecks::c13(cx),
+        "C14" => crate::mchecks::c14(cx),
+        "C20" => crate::mchecks::c20(cx),
         "C18" => crate::nchecks::c18(cx),
         "C19" => crate::nchecks::c19(cx),
         _ => return false,
